@@ -158,7 +158,9 @@ def run_phc_names(ctx):
                         info["synchronized_records_with_phc_term"] += 1
             else:
                 if sync:
-                    vs.append({"sig": "synchronized-although-phc-bound-unreadable", "detail": "clockbound --phc-ref-id %s, chronyd reports reference id '%s', the PHC error bound attribute does not exist: Synchronized published (bound %d ns, %d samples); the report must not count as a measurement" % (r["name"], r["name"], sync[0][1], sync[0][2]), "replay": ""})
+                    vs.append({"sig": "synchronized-although-phc-bound-unreadable", "detail": "clockbound --phc-ref-id %s, chronyd reports reference id '%s', the PHC error bound attribute %s: Synchronized published (bound %d ns, %d samples); the report must not count as a measurement" % (r["name"], r["name"], "does not exist" if r.get("attribute_content") is None else "reads back %r (no value)" % r["attribute_content"], sync[0][1], sync[0][2]), "replay": ""})
                 else:
                     info["runs_without_attribute_not_synchronized"] += 1
+                    if r.get("attribute_content") is not None:
+                        info["runs_with_an_attribute_without_a_value"] = info.get("runs_with_an_attribute_without_a_value", 0) + 1
     return vb, vs, info
